@@ -141,7 +141,8 @@ class _Menu:
         return getattr(self.cx, k)
 
 
-@harness(labels=['hashable', 'equal=>equal-hash', 'dict-key', 'set-member', 'different-not-equal'])
+@harness(labels=['hashable', 'equal=>equal-hash', 'dict-key', 'set-member', 'different-not-equal',
+                 'hashing-leaves-no-trace'])
 def frozen_hash(cx, kind):
     """Equal frozen messages hash equal and find each other as dict keys
     (attribute values from the {min, mid, max} menu: hashing is C-level)."""
@@ -172,6 +173,13 @@ def frozen_hash(cx, kind):
         fo = freeze_message(o)
         if fo == f1:
             cx.check(hash(fo) == h[0] and {f1: 1}.get(fo) == 1 and fo in {f1}, 'equal=>equal-hash')
+    # hashing must not leave anything behind in the object
+    unhashed = freeze_message(m.copy())
+    cx.check(f1 == unhashed and unhashed == f1 and set(vars(f1)) == set(vars(unhashed)), 'hashing-leaves-no-trace')
+    t = thaw_message(f1)
+    cx.check(t == m and set(vars(t)) == set(vars(m)), 'hashing-leaves-no-trace')
+    _, exc = cx.raises(lambda: (f1.copy(), f1.copy(time=m.time + 2), thaw_message(f1).copy(time=3)),
+                       label='hashing-leaves-no-trace')
     other = freeze_message(m.copy(time=m.time + 1))
     cx.check(not (other == f1) and other not in {f1: 1}, 'different-not-equal')
 
